@@ -215,6 +215,24 @@ def run_one(ck, prog):
             retry_ops = [bb for bb, t in cfg.calls(lambda t: t.get("callee") is None or (t.get("callee") or "").endswith(("unistd::read::read", "unistd::write::write", "Fn::call"))) if cfg.dominates(pb, bb) and bb != pb]
             same = bool(first_ops) and bool(retry_ops) and all(tuple(canon(x) for x in ctx.args(r0)) == tuple(canon(x) for x in ctx.args(first_ops[0])) and cfg.term(r0).get("callee") == cfg.term(first_ops[0]).get("callee") for r0 in retry_ops)
             ck.ob("C16.3", f"{p}|operation-retried-with-same-arguments", same, fn=p, site=ctx.site(pb), detail="once the descriptor is ready the original operation must be retried with the same arguments")
+            # ... and on EVERY path: after ppoll reported readiness (s != 0) nothing is returned except what the retried operation
+            # gives (e.g. answering Ok(0) on POLLHUP would drop the bytes still queued in the socket)
+            ready = []
+            for sb in cfg.live_blocks():
+                if cfg.term(sb)["k"] != "switch":
+                    continue
+                for e in cfg.succ[sb]:
+                    for f in ctx.edge_facts(e):
+                        if f[0] == "cmp" and f[1] == "Ne" and 0 in (fold(f[2]), fold(f[3])) and any(mentions(x, ctx.prov, lambda z: z[0] == "call" and z[3] == pb) for x in (f[2], f[3])):
+                            ready.append(e)
+            if retry_ops and ready:
+                skipped = []
+                for e in ready:
+                    r2 = cfg.reachable_from(e.dst, avoid=set(retry_ops) | {pb})
+                    skipped += [rb for rb in cfg.return_blocks() if rb in r2]
+                path = cfg.find_path(ready[0].dst, lambda b: b in skipped, avoid=set(retry_ops) | {pb}) if skipped else None
+                ck.ob("C16.3", f"{p}|ready-always-retries-the-operation", not skipped, fn=p, site=ctx.site(pb), path=cfg.render_path(path) if path else None,
+                      detail="after ppoll reported the descriptor ready the function can return without retrying the operation: a result invented from the poll flags (e.g. Ok(0) on POLLHUP) loses data still queued in the socket")
     ck.floor("C16.3", "Timeout construction sites", n_to, 3)
     # the wait matches the operation: reads/accepts/receives wait for POLLIN, writes/sends/connects for POLLOUT
     IN_OPS = ("unistd::read::read", "accept::accept_unix", "accept::accept_inet", "recvmsg::recvmsg", "unistd::read::readv", "network::recv")
